@@ -31,6 +31,30 @@ pub fn small_maps(nids: usize, internal: Compression) -> Vec<Logical> {
     out
 }
 
+/// id alphabets on encoding boundaries: 1/2/3-byte varint deltas with adjacent pairs, and the u32 edge
+pub const IDS_VARINT: [u64; 6] = [127, 128, 129, 16_383, 16_384, 16_385];
+pub const IDS_U32: [u64; 6] = [(1 << 32) - 2, (1 << 32) - 1, 1 << 32, (1 << 32) + 1, 1 << 56, LAST - 1];
+
+/// all partial maps of the given ids into the first `ncontents` contents (absent included): (ncontents+1)^ids
+pub fn maps_over(ids: &[u64], ncontents: usize, internal: Compression) -> Vec<Logical> {
+    let ks = contents4();
+    let base = ncontents + 1;
+    let total = base.pow(ids.len() as u32);
+    let mut out = Vec::with_capacity(total);
+    for mut code in 0..total {
+        let mut l = Logical::new(internal);
+        for id in ids {
+            let d = code % base;
+            code /= base;
+            if d > 0 {
+                l.tiles.insert(*id, ks[d - 1].clone());
+            }
+        }
+        out.push(l);
+    }
+    out
+}
+
 pub fn large_contents() -> [Vec<u8>; 3] {
     let l = xorshift_bytes(7, 100 * 1024);
     let mut l1 = l.clone();
